@@ -417,6 +417,17 @@ class Exec:
         raise UnsupportedSyntax(type(s).__name__ + ': ' + ast.unparse(s)[:80])
 
 
+def encoding(fn, *a, **k):
+    """run an encoding step; anything the executor cannot digest (not only explicit UnsupportedSyntax) means
+    'the current source is outside the statement subset' -> inconclusive, never a verdict"""
+    try:
+        return fn(*a, **k)
+    except UnsupportedSyntax:
+        raise
+    except Exception as ex:           # noqa
+        raise UnsupportedSyntax(f'{type(ex).__name__}: {ex}')
+
+
 def methods_of(cls):
     """name -> FunctionDef, parsed from the class's CURRENT source"""
     src = textwrap.dedent(inspect.getsource(cls))
